@@ -382,7 +382,9 @@ func ruleSpecPutDelete(c *Ctx, r *R) {
 }
 
 // ordinaryClassTable builds the abstract value of *classObject from the stores the package initialiser makes.
-func ordinaryClassTable(c *Ctx, in *absInterp) (aval, string) { return classTableOf(c, in, "classObject") }
+func ordinaryClassTable(c *Ctx, in *absInterp) (aval, string) {
+	return classTableOf(c, in, "classObject")
+}
 
 // classTableOf builds the abstract value of the class table stored in the package-level variable `global`.
 func classTableOf(c *Ctx, in *absInterp, global string) (aval, string) {
